@@ -216,6 +216,20 @@ def mutate_doc(rng, tree, vocab):
             return None, name
         extra = r.choice([ops[0], _with(ops[0], name=None), _with(ops[0], operation=A.OperationType.SUBSCRIPTION)])
         return apply(A.DocumentNode, 0, lambda h: _with(h, definitions=tuple(h.definitions) + (extra,))), name
+    if name == 'reorder_definitions':
+        # fragments before the operations that use them, operations in another order: validation results (as multisets) and
+        # execution do not depend on the order of definitions
+        defs = list(tree.definitions)
+        if len(defs) < 2:
+            return None, name
+        k = r.random()
+        if k < 0.5:
+            defs.sort(key=lambda d: 0 if isinstance(d, A.FragmentDefinitionNode) else 1)
+        elif k < 0.8:
+            defs.reverse()
+        else:
+            r.shuffle(defs)
+        return apply(A.DocumentNode, 0, lambda h: _with(h, definitions=tuple(defs))), name
     if name == 'ill_typed_directive_argument':
         # @include(if: "x"), @defer(label: 1), @stream(initialCount: "2"): directive arguments are coerced by the rules that
         # collect fields, not only by the rule that checks literals
@@ -256,7 +270,7 @@ MUTATORS = ['rename_field', 'collide_alias', 'drop_alias', 'drop_argument', 'dup
             'drop_variable_definition', 'dup_variable_definition', 'change_variable_type', 'change_variable_default',
             'rename_variable_use', 'fragment_cycle', 'change_type_condition', 'unknown_spread', 'add_directive',
             'drop_selection_set', 'add_selection_set', 'reorder_object_fields', 'dup_object_field', 'dup_operation', 'dup_fragment',
-            'same_field_under_two_types', 'ill_typed_directive_argument', 'ill_typed_directive_argument']
+            'same_field_under_two_types', 'ill_typed_directive_argument', 'ill_typed_directive_argument', 'reorder_definitions', 'reorder_definitions']
 
 
 def _with(node, **changes):
